@@ -438,6 +438,42 @@ def h_pickle_across_processes(eng):
         shutil.rmtree(tmp, ignore_errors=True)
 
 
+def h_deepcopy_groups_systems(eng):
+    """the groups and systems of a deep-copied registry are the copy's own: they belong to it,
+    edits to them are seen by the copy (and only by the copy), new ones can be made"""
+    src = pint.UnitRegistry()
+    cp = copy.deepcopy(src)
+    P = eng.prove
+    P(all(g._REGISTRY is cp for g in cp._groups.values()), "deepcopy:groups-belong-to-the-copy")
+    P(all(s._REGISTRY is cp for s in cp._systems.values()), "deepcopy:systems-belong-to-the-copy")
+    P(all(g._REGISTRY is src for g in src._groups.values()) and all(s._REGISTRY is src for s in src._systems.values()), "deepcopy:source-keeps-its-own")
+    cp.define("smoot = 1.7 * meter")
+    cp.get_group("ImperialVolume").add_units("smoot")
+    P("smoot" in cp.get_system("imperial").members, "deepcopy:group-edit-reaches-the-copy's-system")
+    P("smoot" not in src.get_system("imperial").members and "smoot" not in src, "deepcopy:group-edit-does-not-reach-the-source")
+    try:
+        g = cp.get_group("newgrp")
+        g.add_units("smoot")
+        P("newgrp" in cp._groups and "newgrp" not in src._groups and "smoot" in g.members, "deepcopy:new-group-in-the-copy")
+    except KeyError:
+        eng.fail("deepcopy:new-group-in-the-copy-raises-KeyError", stop=False)
+    cp.default_system = "imperial"
+    P(str(cp.Quantity(1.0, "meter").to_base_units().units) == "yard" and str(src.Quantity(1.0, "meter").to_base_units().units) == "meter", "deepcopy:default-system-independent")
+    src.get_group("USCSLengthInternational").remove_units("inch")
+    P("inch" in cp.get_group("USCSLengthInternational").members and "inch" not in src.get_group("USCSLengthInternational").members, "deepcopy:source-edit-does-not-reach-the-copy")
+
+
+def h_lazy_first_touch_queries(eng):
+    """first touch of a lazy registry by `in`, iteration, len-like questions"""
+    from pint.registry import LazyRegistry
+
+    for label, fn, want in (("in", lambda: "meter" in LazyRegistry(), True), ("not-in", lambda: "nosuchunit" in LazyRegistry(), False), ("iter", lambda: "meter" in set(LazyRegistry()), True)):
+        try:
+            eng.prove(fn() == want, f"lazy:first-touch:{label}")
+        except Exception as ex:  # noqa: BLE001
+            eng.fail(f"lazy:first-touch:{label}:raises-{type(ex).__name__}", stop=False)
+
+
 def h_deepcopy_measurements(eng):
     """a deep-copied registry makes its own measurements: they follow the copy's definitions and
     do not mix with the source's objects"""
@@ -495,4 +531,7 @@ def cases(tier, seed):
     out.append(Case("H18.e", "measurement", M, "h_measurement_roundtrip", {}, kind="conc"))
     out.append(Case("H18.e", "pickle-across-processes", M, "h_pickle_across_processes", {}, kind="conc"))
     out.append(Case("H18.c", "deepcopy-measurements", M, "h_deepcopy_measurements", {}, kind="conc"))
+    out.append(Case("H18.c", "deepcopy-groups-systems", M, "h_deepcopy_groups_systems", {}, kind="conc"))
+    out.append(Case("H18.d", "lazy-first-touch-queries", M, "h_lazy_first_touch_queries", {}, kind="conc"))
+    out.append(Case("H18.obs", "observed", "pvlib.harness.observed", "h_c18", {}, kind="conc"))
     return out
